@@ -12,6 +12,7 @@ open Finset TfelVerif TfelVerif.C25 TfelVerif.C25.Spec TfelVerif.C25.Lemmas
 set_option linter.unusedVariables false
 set_option linter.unusedSectionVars false
 set_option maxRecDepth 100000
+set_option linter.unusedSimpArgs false
 
 variable {K : Type} [Field K] [LinearOrder K] [IsStrictOrderedRing K] (c c3 : K) (fn : Fns K)
 
@@ -20,4 +21,16 @@ theorem MTT_f0 (E0 nu0 Ei nui a00 a01 a02 a03 a04 a05 a10 a11 a12 a13 a14 a15 a2
     GenHeavy.MTT_f0_all c c3 fn E0 nu0 Ei nui a00 a01 a02 a03 a04 a05 a10 a11 a12 a13 a14 a15 a20 a21 a22 a23 a24 a25 a30 a31 a32 a33 a34 a35 a40 a41 a42 a43 a44 a45 a50 a51 a52 a53 a54 a55
       = Gen.IsoStiff_EN_all c c3 fn E0 nu0 := by
   simp only [GenHeavy.MTT_f0_all, Gen.IsoStiff_EN_all, zero_mul, add_zero]
+
+/-- `computeMoriTanaka` on a two-phase microstructure (spherical inclusions) whose inclusion fraction is 0 -/
+theorem MicroMT_f0_n2 (K0 K1 G0 G1 : K) :
+    GenHeavy.MicroMT_f0_n2_all c c3 fn K0 K1 G0 G1 = Gen.IsoStiff_KG_all c c3 fn K0 G0 := by
+  simp only [GenHeavy.MicroMT_f0_n2_all, Gen.IsoStiff_KG_all, zero_mul, mul_zero, add_zero, zero_add, sub_zero,
+    zero_div, div_one, mul_one, one_mul, sub_self, zero_sub, neg_zero]
+/-- `computeSelfConsistent` (isotropic iterations) on the same microstructure: the loop exits after its first pass
+and returns the matrix -/
+theorem MicroSC_f0_n2 (K0 K1 G0 G1 : K) :
+    GenHeavy.MicroSC_f0_n2_all c c3 fn K0 K1 G0 G1 = Gen.IsoStiff_KG_all c c3 fn K0 G0 := by
+  simp only [GenHeavy.MicroSC_f0_n2_all, Gen.IsoStiff_KG_all, zero_mul, mul_zero, add_zero, zero_add, sub_zero,
+    zero_div, div_one, mul_one, one_mul, sub_self, zero_sub, neg_zero]
 end TfelVerif.C25.Props
